@@ -500,7 +500,16 @@ func (i *interpreter) eqnil(t types.Type, x, y value) value {
 			}
 			return true
 		case []value:
+			if _, ok := y.(*symSlice); ok {
+				return x != nil
+			}
 			return (x != nil) == (y.([]value) != nil)
+		case *symSlice:
+			// an opaque buffer is never nil
+			if ys, ok := y.([]value); ok {
+				return ys != nil
+			}
+			return true
 		}
 		panic(fmt.Sprintf("eqnil(%s): illegal dynamic type: %T", t, x))
 	}
